@@ -1,4 +1,5 @@
 import MosdnsVerif.Model.Handler
+import MosdnsVerif.Model.C15
 import MosdnsVerif.Gen.Facts
 
 /-!
@@ -223,11 +224,302 @@ theorem upstream_entry_ok (up : Msg → Msg) (hup : ∀ m, countOpt (up m).extra
   simp only [upstreamAnswer] at hr'
   rw [hr] at hr'; injection hr' with hr'; subst hr'; exact h0
 
+/-! ### The cache entry across transactions (chains of forward_edns0opt / ttl around a cache) -/
+section CacheLife
+open Model.C15
+
+/-- **`copyNoOpt` always returns a new message** (regenerated fact): the entry is never the live response. -/
+theorem copyAliases_never : copyAliases = fun _ => false := by
+  funext _; unfold copyAliases; decide
+
+theorem copyNoOpt_count (m : Msg) : countOpt (copyNoOpt m).extra = 0 := by
+  simp [copyNoOpt, countOpt, List.filter_filter]
+
+theorem exec_slot_ok (up : Up) (ps : List Plugin) (c : Ctx) (s : Slot) (hs : s.ok) :
+    (exec (fun _ => false) up ps c s).slot.ok := by
+  induction ps generalizing c with
+  | nil => unfold exec; split <;> exact hs
+  | cons p ps ih =>
+    cases p with
+    | ttl => simp only [exec]; exact ih c
+    | fwd codes =>
+      simp only [exec]
+      split
+      · exact ih _
+      · exact ih _
+    | cache =>
+      simp only [exec]
+      split
+      · split
+        · have := copyNoOpt_count
+          simp only [countOpt] at this
+          simp [Slot.ok, this]
+        · exact ih _
+      · exact ih _
+
+/-- **Cached answers never contain an OPT**: whatever the chain (forwarders and ttl in any order around the cache),
+the client's query, the upstream's outcome and OPT, every transaction through `Handle` leaves an entry without OPT
+behind - with `copyNoOpt` as regenerated (`copyAliases`). -/
+theorem cached_never_contains_opt (chain : List Plugin) (up : Up) (q : Msg) (s : Slot) (hs : s.ok) :
+    (transact copyAliases chain up q s).slot.ok := by
+  rw [copyAliases_never]
+  unfold transact
+  split
+  · exact hs
+  · have h := exec_slot_ok up chain (newContext q) s hs
+    generalize exec (fun _ => false) up chain (newContext q) s = R at h ⊢
+    cases hsl : R.slot with
+    | empty => simp only [hsl]; trivial
+    | own m => rw [hsl] at h; simp only [hsl]; exact h
+    | live => rw [hsl] at h; exact absurd h (by simp [Slot.ok])
+
+/-- Why the fact is needed: if `copyNoOpt` handed back its argument when there is no OPT to strip, the entry filled by
+an EDNS0 client would contain that client's response OPT once `Handle` is done with the response, and the next client
+served from the cache through a forwarding plugin would be sent the first exchange's cookie. -/
+def leakAliases : Msg → Bool := fun m => countOpt m.extra == 0
+def leakChain : List Plugin := [.fwd [10], .cache]
+def leakQ1 : Msg := { id := 1, question := [⟨[97], 1, 1⟩], extra := [.opt { udpSize := 1232, doBit := false, options := [(10, 1)] }] }
+def leakQ2 : Msg := { id := 2, question := [⟨[97], 1, 1⟩], extra := [.opt { udpSize := 512, doBit := true, options := [] }] }
+def leakT1 : Tx := transact leakAliases leakChain (.ans 0 1 [.opt { udpSize := 1232, doBit := false, options := [(10, 77)] }]) leakQ1 .empty
+def leakT2 : Tx := transact leakAliases leakChain .none leakQ2 leakT1.slot
+def replyOptions (t : Tx) : Option (List (List (Nat × Nat))) :=
+  t.reply.map (fun r => r.extra.filterMap (fun x => match x with | .opt o => some o.options | _ => none))
+
+theorem alias_leaks : ¬ leakT1.slot.ok ∧ replyOptions leakT2 = some [[(10, 77)]] := by
+  decide
+
+/-- the same two exchanges with `copyNoOpt` as regenerated: a clean entry, and the second client gets a bare OPT -/
+example : (transact copyAliases leakChain (.ans 0 1 [.opt { udpSize := 1232, doBit := false, options := [(10, 77)] }]) leakQ1 .empty).slot.ok ∧
+    replyOptions (transact copyAliases leakChain .none leakQ2
+      (transact copyAliases leakChain (.ans 0 1 [.opt { udpSize := 1232, doBit := false, options := [(10, 77)] }]) leakQ1 .empty).slot) = some [[]] ∧
+    replyOptions (transact copyAliases leakChain (.ans 0 1 [.opt { udpSize := 1232, doBit := false, options := [(10, 77)] }]) leakQ1 .empty) = some [[(10, 77)]] := by
+  decide
+
+/-- what holds of a context while the chain runs: no OPT in the response, the upstream OPT is the one of this
+exchange's upstream answer, and every option of the response OPT was forwarded explicitly from it -/
+structure Inv (ex : List RR) (codes : List Nat) (c : Ctx) : Prop where
+  resp : ∀ r, c.resp = some r → countOpt r.extra = 0
+  upo : ∀ o, c.upstreamOpt = some o → RR.opt o ∈ ex
+  ro : ∀ ro, c.respOpt = some ro → ∀ p ∈ ro.options, p.1 ∈ codes ∧ ∃ uo, RR.opt uo ∈ ex ∧ p ∈ uo.options
+
+theorem popOpt_mem (l : List RR) (o : Opt) (h : (popOpt l).2 = some o) : RR.opt o ∈ l := by
+  induction l with
+  | nil => simp [popOpt] at h
+  | cons r rs ih =>
+    simp only [popOpt] at h
+    cases hp : popOpt rs with
+    | mk rs' o' =>
+      rw [hp] at h ih
+      cases o' with
+      | some o2 => simp at h; subst h; exact List.mem_cons_of_mem _ (ih rfl)
+      | none =>
+        cases r with
+        | opt o3 => simp at h; subst h; simp
+        | rr => simp at h
+
+theorem setResponse_inv (ex : List RR) (codes : List Nat) (c : Ctx) (m : Msg) (hc : Inv ex codes c)
+    (hm : countOpt m.extra ≤ 1) (hsub : ∀ o, RR.opt o ∈ m.extra → RR.opt o ∈ ex) :
+    Inv ex codes (c.setResponse (some m)) := by
+  refine ⟨?_, ?_, ?_⟩
+  · intro r hr
+    simp only [Ctx.setResponse] at hr
+    injection hr with hr; subst hr
+    have := popOpt_count m.extra
+    simp only at this ⊢
+    omega
+  · intro o ho
+    simp only [Ctx.setResponse] at ho
+    exact hsub o (popOpt_mem _ _ ho)
+  · intro ro hro
+    simp only [Ctx.setResponse] at hro
+    exact hc.ro ro hro
+
+theorem fwdBack_resp (cs : List Nat) (c : Ctx) : (fwdBack cs c).resp = c.resp ∧ (fwdBack cs c).upstreamOpt = c.upstreamOpt := by
+  unfold fwdBack; split <;> exact ⟨rfl, rfl⟩
+
+theorem mem_plugCodes_cons (p : Plugin) (ps : List Plugin) (x : Nat) (h : x ∈ plugCodes ps) : x ∈ plugCodes (p :: ps) := by
+  cases p <;> simp [plugCodes, h]
+
+theorem exec_inv (up : Up) (codes : List Nat) (hex : countOpt up.extra ≤ 1) (ps : List Plugin)
+    (hps : ∀ x ∈ plugCodes ps, x ∈ codes) (c : Ctx) (s : Slot) (hs : s.ok) (hc : Inv up.extra codes c) :
+    Inv up.extra codes (exec (fun _ => false) up ps c s).c := by
+  induction ps generalizing c with
+  | nil =>
+    unfold exec
+    split
+    · exact hc
+    · exact setResponse_inv _ _ _ _ hc hex (fun o h => h)
+    · exact hc
+    · exact hc
+  | cons p ps ih =>
+    have hps' : ∀ x ∈ plugCodes ps, x ∈ codes := fun x hx => hps x (mem_plugCodes_cons p ps x hx)
+    cases p with
+    | ttl => simp only [exec]; exact ih hps' c hc
+    | fwd cs =>
+      have hq : Inv up.extra codes (addQOpts cs c) := by
+        unfold addQOpts
+        split
+        · exact hc
+        · exact ⟨hc.resp, hc.upo, hc.ro⟩
+      have h1 := ih hps' (addQOpts cs c) hq
+      simp only [exec]
+      split
+      · exact h1
+      · refine ⟨?_, ?_, ?_⟩
+        · intro r hr
+          simp only [(fwdBack_resp cs _).1] at hr
+          exact h1.resp r hr
+        · intro o ho
+          simp only [(fwdBack_resp cs _).2] at ho
+          exact h1.upo o ho
+        · intro ro hro p hp
+          unfold fwdBack at hro
+          split at hro
+          · rename_i uo ro0 huo hro0
+            simp only at hro
+            injection hro with hro; subst hro
+            simp only [List.mem_append, List.mem_filter] at hp
+            rcases hp with hp | ⟨hp, hcode⟩
+            · exact h1.ro ro0 hro0 p hp
+            · refine ⟨hps p.1 ?_, uo, h1.upo uo huo, hp⟩
+              have : p.1 ∈ cs := by simpa using hcode
+              simp [plugCodes, this]
+          · exact h1.ro ro hro p hp
+    | cache =>
+      have hin : Inv up.extra codes (match (match s with | Slot.own m => some m | _ => none) with
+          | some m => cacheHit m c | none => c) := by
+        cases s with
+        | empty => exact hc
+        | live => exact hc
+        | own m =>
+          have hm : countOpt m.extra = 0 := hs
+          refine setResponse_inv _ _ _ _ hc (by simp only [countOpt] at hm ⊢; omega) ?_
+          intro o ho
+          have : RR.opt o ∈ m.extra.filter RR.isOpt := List.mem_filter.mpr ⟨ho, rfl⟩
+          unfold countOpt at hm
+          rw [List.length_eq_zero_iff.mp hm] at this
+          cases this
+      have h1 := ih hps' _ hin
+      simp only [exec]
+      split
+      · split
+        · exact h1
+        · exact h1
+      · exact h1
+
+theorem exec_respOpt (aliases : Msg → Bool) (up : Up) (ps : List Plugin) (c : Ctx) (s : Slot) :
+    (exec aliases up ps c s).c.respOpt.map (·.doBit) = c.respOpt.map (·.doBit) := by
+  induction ps generalizing c with
+  | nil => unfold exec; split <;> simp [upstreamAnswer, Ctx.setResponse]
+  | cons p ps ih =>
+    cases p with
+    | ttl => simp only [exec]; exact ih c
+    | fwd cs =>
+      have hq : (addQOpts cs c).respOpt = c.respOpt := by unfold addQOpts; split <;> rfl
+      simp only [exec]
+      split
+      · rw [ih, hq]
+      · rw [← hq, ← ih (addQOpts cs c)]
+        simp only
+        unfold fwdBack
+        split
+        · rename_i uo ro huo hro; simp [hro]
+        · rfl
+    | cache =>
+      simp only [exec]
+      have hh : ∀ m, (cacheHit m c).respOpt = c.respOpt := by
+        intro m; simp [cacheHit, Ctx.setResponse]
+      cases s with
+      | own m =>
+        simp only [exec]
+        rw [ih, hh]
+      | empty =>
+        simp only [exec]
+        split
+        · split <;> rw [ih]
+        · rw [ih]
+      | live =>
+        simp only [exec]
+        split
+        · split <;> rw [ih]
+        · rw [ih]
+
+/-- **The reply carries exactly one OPT iff the client's query had one, DO mirrored, and every option in it was
+forwarded explicitly (its code is listed by a forward_edns0opt plugin of the chain) from the OPT of the upstream
+answer of this very exchange** - for every chain of forwarders / ttl around a cache, whatever the cache holds
+(an entry without OPT, which `cached_never_contains_opt` maintains), every client query and every upstream outcome
+with at most one OPT. In particular nothing of an earlier exchange comes back, and when the upstream gave no OPT
+(or no answer) the reply's OPT has no options. -/
+theorem reply_opt_this_exchange (chain : List Plugin) (up : Up) (q : Msg) (s : Slot)
+    (hv : validQuery q = true) (hs : s.ok) (hex : countOpt up.extra ≤ 1) :
+    ∃ r, (transact copyAliases chain up q s).reply = some r ∧
+      countOpt r.extra = (if countOpt q.extra = 1 then 1 else 0) ∧
+      ∀ o, RR.opt o ∈ r.extra → (∃ co, RR.opt co ∈ q.extra ∧ o.doBit = co.doBit) ∧
+        ∀ p ∈ o.options, p.1 ∈ plugCodes chain ∧ ∃ uo, RR.opt uo ∈ up.extra ∧ p ∈ uo.options := by
+  obtain ⟨hiff, hro⟩ := respOpt_iff q hv
+  rw [copyAliases_never]
+  unfold transact
+  simp only [hv, Bool.not_true, Bool.false_eq_true, if_false]
+  refine ⟨_, rfl, ?_⟩
+  have h0 : Inv up.extra (plugCodes chain) (newContext q) := by
+    refine ⟨?_, ?_, ?_⟩
+    · intro r hr; simp [newContext] at hr
+    · intro o ho; simp [newContext] at ho
+    · intro ro hr p hp
+      rw [(hro ro hr).1] at hp; cases hp
+  have hI := exec_inv up (plugCodes chain) hex chain (fun x hx => hx) (newContext q) s hs h0
+  have hD := exec_respOpt (fun _ => false) up chain (newContext q) s
+  generalize exec (fun _ => false) up chain (newContext q) s = R at hI hD
+  rw [finish_opt]
+  have hbase : countOpt (base R.c R.failed).extra = 0 := by
+    unfold base
+    split
+    · simp [setReply, countOpt]
+    · split
+      · rename_i r hr; exact hI.resp r hr
+      · simp [setReply, countOpt]
+  have hbase' : ∀ o, RR.opt o ∉ (base R.c R.failed).extra := by
+    intro o ho
+    have : RR.opt o ∈ (base R.c R.failed).extra.filter RR.isOpt := List.mem_filter.mpr ⟨ho, rfl⟩
+    unfold countOpt at hbase
+    rw [List.length_eq_zero_iff.mp hbase] at this
+    cases this
+  cases hR : R.c.respOpt with
+  | none =>
+    rw [hR] at hD
+    have hn : (newContext q).respOpt = none := by
+      cases h : (newContext q).respOpt with
+      | none => rfl
+      | some x => rw [h] at hD; simp at hD
+    have : ¬ countOpt q.extra = 1 := fun h => by simpa [hn] using hiff.mpr h
+    simp only [this, if_false, List.append_nil]
+    exact ⟨hbase, fun o ho => absurd ho (hbase' o)⟩
+  | some ro =>
+    rw [hR] at hD
+    cases hN : (newContext q).respOpt with
+    | none => rw [hN] at hD; simp at hD
+    | some ro0 =>
+      rw [hN] at hD
+      have hdo : ro.doBit = ro0.doBit := by simpa using hD
+      have : countOpt q.extra = 1 := hiff.mp (by simp [hN])
+      simp only [this, if_true]
+      constructor
+      · simp [countOpt, List.filter_append, List.filter_cons] at hbase ⊢; omega
+      · intro o ho
+        rcases List.mem_append.mp ho with ho | ho
+        · exact absurd ho (hbase' o)
+        · simp at ho; subst ho
+          obtain ⟨_, co, _, h3, h4⟩ := hro _ hN
+          exact ⟨⟨co, h3, by rw [hdo, h4]⟩, hI.ro _ hR⟩
+
+end CacheLife
+
 /-! ### Guards over the regenerated facts -/
 theorem facts_guard :
     Gen.Facts.c15NewContextSwapsOpt = some true ∧ Gen.Facts.c15SetResponsePopsOpt = some true ∧
     Gen.Facts.c15RespOptMirrorsDo = some true ∧ Gen.Facts.c15FreshOptShape = some true ∧
-    Gen.Facts.c15CopyNoOptDropsOpt = some true ∧ Gen.Facts.c15OnlyEcsForwardsBack = some true := by decide
+    Gen.Facts.c15CopyNoOptDropsOpt = some true ∧ Gen.Facts.c15OnlyEcsForwardsBack = some true ∧
+    Gen.Facts.c15CopyNoOptAliasPaths = some 0 ∧ Gen.Facts.c10StoreCopies = some true := by decide
 
 /-! ### Non-vacuity -/
 def clientOpt : Opt := { udpSize := 4096, doBit := true, options := [(10, 1), (8, 2)] }
